@@ -180,19 +180,15 @@ def match_multiset(W, Wref):
     return float(np.max(D[r, c]))
 
 
-def _maxabs(M):
-    if isinstance(M, np.ndarray):
-        return float(np.max(np.abs(M))) if M.size else 0.0
-    d = M.tocsc().data  # scipy sparse
-    return float(np.max(np.abs(d))) if d.size else 0.0
-
-
 def residual(A, B, w, q):
-    """(max-norm of A q - w B q, backward-error scale (|A|_max + |w| |B|_max) * |q|_1); dense or scipy-sparse."""
+    """(max-norm of r = A q - w B q, scale): the scale is the largest entry of |A||q| + |w||B||q|, i.e. the size of
+    the terms that cancel in r (a large penalty value on a constrained dof does not inflate it, because the
+    eigenvector vanishes there).  Dense or scipy-sparse matrices."""
+    aq = np.abs(q)
     Bq = q if B is None else B @ q
     r = np.asarray(A @ q - w * Bq).ravel()
-    bmax = 1.0 if B is None else _maxabs(B)
-    scale = (_maxabs(A) + abs(w) * bmax) * float(np.sum(np.abs(q)))
+    terms = np.asarray(abs(A) @ aq).ravel() + abs(w) * (aq if B is None else np.asarray(abs(B) @ aq).ravel())
+    scale = float(np.max(terms)) if terms.size else 0.0
     err = float(np.max(np.abs(r))) if np.all(np.isfinite(r)) else float('inf')
     return err, scale
 
